@@ -26,22 +26,36 @@ THEOREMS = ['PbBss.C06.' + t for t in [
     'vmfFit_slices', 'vmfLogPdf_slices', 'scatter_slices', 'watsonLogPdf_slices', 'binghamLogPdf_slices',
     'cacgNormalize_slices', 'cacgStart_slices', 'cacgFitCovariance_slices', 'cacgEigenvalueNorm_slices',
     'cacgLogPdf_slices',
+    # a mixture trainer: the EM loop of GMMTrainer
+    'reshape_pair_class_slices', 'gmmMStep_slices', 'gmmPredict_slices', 'gmmFit_slices', 'goodLead_of_check',
+    'gmmFit_slices_shaped', 'gmmFitPredict_slices_shaped',
     # singleton leading axes
     'broadcastLead_slices', 'singleton_init_weights',
     # counter-witnesses
     'cumprod_axis0_not_slicewise', 'postInit_without_reshape_back_wrong_shape',
 ]]
 ASSUMPTIONS = [
-    'theorems are about the reversed-index tensor-layer transcriptions (lean/PbBss/Model/Tensor.lean) of: log_pdf_to_affiliation, '
-    'estimate_mixture_weight(weight_constant_axis=(-1,)), GaussianTrainer._fit, the three Gaussian log_pdf and __post_init__; they '
-    'are tied to /repo by the element-wise correspondence run on full stacked arrays (NumPy semantics of einsum/broadcasting/reshape '
-    'are modelled, not verified)',
-    'complex Gaussian, vMF, complex Watson, cACG, complex Bingham (trainers and log_pdf) and the EM loops of the five mixture '
-    'trainers have no tensor-layer transcription: for them the claim rests on the stacked-vs-slice search on the real code',
-    'external per-matrix routines (sklearn precision Cholesky, eigh, hyp1f1/ive, least_squares) are assumed to treat the entries of '
-    'a stack independently; this is what the search observes, not a theorem',
-    'search tolerances: closed-form fields 1e-9 relative, after 1..3 EM iterations 1e-7, Bingham eigenvalues (least_squares) 1e-5; '
-    'eigenvectors compared as projectors / through U diag(l) U^H; observed deviations on the unchanged tree are below 1e-13',
+    'theorems are about the reversed-index tensor-layer transcriptions in lean/PbBss/Model/Tensor.lean; they are tied to /repo by '
+    'the element-wise correspondence run of the compiled model on full stacked arrays (NumPy semantics of einsum / broadcasting / '
+    'reshape are modelled, not verified); the theorems are structural (no property of the scalar type is used) and therefore hold '
+    'verbatim for the Float instance the driver executes',
+    'transcribed WITH a slice theorem: log_pdf_to_affiliation (mask, clipping, any broadcast weight), estimate_mixture_weight for '
+    'weight_constant_axis=(-1,), GaussianTrainer._fit (3 covariance types), the 3 Gaussian log_pdf and __post_init__ (reshape pairs), '
+    'GMMTrainer._m_step / GMM.predict / GMMTrainer._fit for any number of iterations, VonMisesFisherTrainer._fit and log_pdf, the '
+    'scatter matrix of the complex Gaussian / Watson / Bingham trainers, ComplexWatson.log_pdf, ComplexBingham.log_pdf, cACG '
+    'normalize_observation, _fit up to eigh, eigenvalue normalisation, _log_pdf and the start value of fit',
+    'NOT transcribed (claim = stacked-vs-slice search on the real code only): ComplexCircularSymmetricGaussian.log_pdf (slogdet / '
+    'solve), get_pca and the concentration spline of the Watson trainer, the eigenvalue solver of the Bingham trainer, the EM loops '
+    'of CACGMMTrainer / CWMMTrainer / CBMMTrainer / VMFMMTrainer (their M-step and E-step building blocks above are), '
+    'weight_constant_axis other than (-1,), inline permutation alignment',
+    'external per-matrix / elementwise routines (sklearn precision Cholesky = parameter `chol`, eigh, hyp1f1, ive, least_squares) are '
+    'assumed to treat the entries of a stack independently; log_norm values of vMF / Watson / Bingham are inputs of the model',
+    'gmmFit_slices_shaped assumes inputs without broadcasting in the leading axes (y (*lead,N,D), affiliation (*lead,K,N), saliency '
+    '(*lead,N)); the general gmmFit_slices has a shape hypothesis on the iterates which the driver checks on every executed case',
+    'search tolerances: closed-form fields 1e-9 relative; one EM iteration 1e-7; several iterations: E-step of the final model 1e-8 '
+    'absolute against a stand-alone model with the same parameters, end-to-end tolerance scaled by the conditioning of the fitted '
+    'covariance (rounding amplified by 1/eigenvalue-floor is not cross-talk); Bingham eigenvalues (least_squares) 1e-5; eigenvectors '
+    'compared as projectors / through U diag(l) U^H; observed deviations on the unchanged tree are below 1e-13 for well conditioned slices',
 ]
 
 from pb_bss.distribution import gaussian as G  # noqa: E402
@@ -1003,14 +1017,20 @@ def corr(ctx):
     _corr_directional(ctx, rng, add, cap)
     # (7) the EM loop of the GMM trainer (gmmFit): n + 1 iterations, state stored per step; the recursive definition itself
     #     for n <= 1; the driver also reports whether the hypothesis GoodLead of gmmFit_slices held on the executed shapes
-    for i in range(ctx.n(24, 240)):
+    for i in range(ctx.n(24, 120)):
         with _guarded(ctx, 'GMMTrainer.fit'):
-            lead = tu.lead_shape(rng, max_total=8 if ctx.tier == 'quick' else 20)
             ct = str(rng.choice(['full', 'diagonal', 'spherical']))
-            D, K = int(rng.integers(1, 4)), int(rng.integers(1, 4))
-            N = int(rng.integers(K * (D + 2), K * (D + 2) + 5))
             n = int(rng.integers(0, 3))
-            direct = n <= 1 and rng.random() < 0.35 and int(np.prod(lead)) * K * N * D <= 150
+            tiny_case = rng.random() < 0.15          # small enough for the function-valued recursion `gmmFit` itself
+            if tiny_case:
+                lead = tu.lead_shape(rng, max_total=2)
+                D, K, n = 1, int(rng.integers(1, 3)), int(rng.integers(0, 2))
+                N = K + 2
+            else:
+                lead = tu.lead_shape(rng, max_total=8 if ctx.tier == 'quick' else 12)
+                D, K = int(rng.integers(1, 4)), int(rng.integers(1, 4))
+                N = int(rng.integers(K * (D + 2), K * (D + 2) + 5))
+            direct = tiny_case or (n == 0 and rng.random() < 0.3)
             y = tu.slice_contents(rng, lead, (N, D))
             init = _gen_init(rng, lead, K, N)
             sal = np.ones(lead + (N,)) if rng.random() < 0.5 else _gen_saliency(rng, lead, N)
